@@ -220,7 +220,7 @@ theorem C04_switch_keeps_observers_right (ops : List Op) (outs : List Out) (clos
     intro l hl
     obtain ⟨y, hy, _, hyr, hyk⟩ := (hi.roomL_iff x.backend r0 l).mp hl
     exact ⟨y, hy, hyk, by simp [hyr]⟩
-  obtain ⟨⟨y, hy, hyk, hyr, hyb⟩, f2, f3, f4⟩ :=
+  obtain ⟨⟨y, hy, hyk, hyr, hyb, -⟩, f2, f3, f4⟩ :=
     leaveRoom_frame ⟨h, outs, closes⟩ s x r0 rm0 hx hk hr hrm0 hs0 (hi.roomL_nodup x.backend r0) hl0
   have hne' : ¬ (x.backend = x.backend ∧ r = r0) := fun c => hne c.2
   obtain ⟨g1, g2⟩ := f3 x.backend r hne'
@@ -264,6 +264,38 @@ theorem C04_switch_keeps_observers_right (ops : List Op) (outs : List Out) (clos
       simp only [seenOf, f2 l h1 h2] at this ⊢
       exact this)
   rw [hyb, g1, g2] at this
+  exact this
+
+/-- **Observer side, a session ends** (bye, expiry, kick: `ClientSession.closeAndWait`).  The other members of its room hold
+the new member set afterwards: the end of an ordinary session is its leave followed by table updates that touch
+no other session. -/
+theorem C04_end_keeps_observers_right (ops : List Op) (outs : List Out) (closes : List Nat) (s : Nat) (x : Sess)
+    (r : String) (rm : Room)
+    (hx : (run {} ops).1.sess s = some x) (hk : x.kind = .client) (hch : x.children = []) (hr : x.room = some r)
+    (hrm : (run {} ops).1.rooms x.backend r = some rm)
+    (hv : ∀ l ∈ (run {} ops).1.roomL x.backend r, l ≠ s → ∀ t, t ∈ seenOf (run {} ops).1 l ↔ t ∈ rm.members) :
+    let a' := closeSession ⟨(run {} ops).1, outs, closes⟩ s
+    a'.h.sess s = none ∧
+    ∀ l ∈ (run {} ops).1.roomL x.backend r, l ≠ s → ∀ t, t ∈ seenOf a'.h l ↔ t ∈ removeL rm.members s := by
+  have hleave := C04_leave_keeps_observers_right ops outs closes s x r rm hx hk hr hrm hv
+  have hi := reachable_inv ops
+  generalize (run {} ops).1 = h at *
+  intro a'
+  obtain ⟨rm', hrm', hs⟩ := hi.room_mem' s x r hx hr
+  rw [hrm] at hrm'; cases hrm'
+  have hl0 : ∀ l ∈ h.roomL x.backend r, Listens h l := by
+    intro l hl
+    obtain ⟨y, hy, _, hyr, hyk⟩ := (hi.roomL_iff x.backend r l).mp hl
+    exact ⟨y, hy, hyk, by simp [hyr]⟩
+  obtain ⟨⟨y, hy, _, _, _, hyc⟩, -⟩ :=
+    leaveRoom_frame ⟨h, outs, closes⟩ s x r rm hx hk hr hrm hs (hi.roomL_nodup x.backend r) hl0
+  have e : a' = { (leaveRoom ⟨h, outs, closes⟩ s).1 with h := dropClient (leaveRoom ⟨h, outs, closes⟩ s).1.h s y } := by
+    simp only [a', closeSession, hx, hk, reduceCtorEq, ↓reduceIte, closeClient, hy, hyc, hch, List.foldl_nil]
+  rw [e]
+  refine ⟨dropClient_sess_self _ s y, ?_⟩
+  intro l hl hne t
+  have := hleave l hl hne t
+  simp only [seenOf, dropClient_sess _ s y l hne] at this ⊢
   exact this
 
 /-- Non-vacuity / witness: in the demo history below every observer's view is its room's member set, and the
